@@ -124,6 +124,9 @@ Definition read_fru_data (rng : option (N * N)) (id : N) : prog (list N) :=
   | Some (off, cnt) => read_loop (read_fuel off (off + cnt)) id off (off + cnt) 32 []
   end.
 
+(* Fru.read_fru_data_full(fru_id) *)
+Definition read_fru_data_full (id : N) : prog (list N) := read_fru_data None id.
+
 (* pyipmi/utils.py:chunks(data, count): data[i:i+count] for i in range(0, len(data), count) *)
 Fixpoint chunks_aux (fuel : nat) (data : list N) (n : nat) : list (list N) :=
   match fuel with
